@@ -20,6 +20,7 @@ PROFILES = {
     "valuecall": dict(features={"arith", "valuecall", "call", "branch", "mem"}, nstmts=(1, 3), depth=1, branchy=0.3),
     "corr": dict(features={"arith", "corr", "mem", "storage"}, nstmts=(1, 3), depth=1),
     "stackops": dict(features={"arith", "stackops", "mem", "env"}, nstmts=(1, 3), depth=0),
+    "hashcond": dict(features={"arith", "sha3", "hashcond", "branch", "mem", "storage"}, nstmts=(1, 3), depth=2),
     "symloop": dict(features={"arith", "loop", "symloop", "storage", "mem"}, nstmts=(1, 2), depth=1),
     "symjump": dict(features={"arith", "symjump", "mem"}, nstmts=(1, 2), depth=0),
     "callfail": dict(features={"arith", "callfail", "call", "storage"}, nstmts=(1, 3), depth=1, branchy=0.8),
